@@ -439,8 +439,12 @@ fn snap(ms: u64, cands: &[u64]) -> u64 {
 }
 
 /// one probe; limits and simple client behaviours go through `passage::start(Config)`
+/// configured secrets: the text the operator wrote is the key, byte for byte (a mounted secret file ends in a newline)
+const SECRETS: &[&str] = &["configured secret", "s3cret-from-a-file\n", "  padded  ", "\ttab-led"];
+
 fn c14_case(req: &str) -> Case {
     let op = req.split_whitespace().next().unwrap().to_string();
+    let configured = SECRETS[kvs(req, "sec").and_then(|s| s.parse::<usize>().ok()).unwrap_or(0) % SECRETS.len()];
     rt().block_on(async {
         match op.as_str() {
             "c14.limit" => {
@@ -459,8 +463,8 @@ fn c14_case(req: &str) -> Case {
                 let (cfgexp, age, same) = (kvn(req, "cfgexp"), kvn(req, "age"), kvn(req, "same"));
                 // `nosecret=1`: the operator configured no secret at all (cookies are switched off); the client signs with the empty key
                 let nosecret = kvs(req, "nosecret").as_deref() == Some("1");
-                let p = start_app(app_config(free_port(), 10_000, cfgexp, if nosecret { None } else { Some("configured secret") }, 2, false));
-                let key: &[u8] = if nosecret { b"" } else if same == 1 { b"configured secret" } else { b"another secret" };
+                let p = start_app(app_config(free_port(), 10_000, cfgexp, if nosecret { None } else { Some(configured) }, 2, false));
+                let key: &[u8] = if nosecret { b"" } else if same == 1 { configured.as_bytes() } else { b"another secret" };
                 let cookie = sign(key, &cookie_json(now_secs() - age, "127.0.0.1:7", "Tester", 0x0987_9557_e479_45a9_b434_a563_7767_4627, Some("srv-0"), serde_json::json!([])));
                 let mut c = Cli::connect(p, None).await.expect("connect");
                 c.login(3, Some(cookie), Stage::EncRequest, Duration::from_millis(1500)).await;
@@ -472,7 +476,7 @@ fn c14_case(req: &str) -> Case {
             "c14.issued" => {
                 // a cookie issued by the server itself, presented again `wait` seconds later
                 let (cfgexp, wait) = (kvn(req, "cfgexp"), kvn(req, "wait"));
-                let p = start_app(app_config_t(free_port(), 10_000, cfgexp, Some("configured secret"), 3, None, None, true));
+                let p = start_app(app_config_t(free_port(), 10_000, cfgexp, Some(configured), 3, None, None, true));
                 let mut c1 = Cli::connect(p, None).await.expect("connect");
                 let st = c1.login(2, None, Stage::Transferred, Duration::from_millis(2000)).await;
                 let cookie = c1.stored_auth.clone();
@@ -481,7 +485,9 @@ fn c14_case(req: &str) -> Case {
                 c2.login(3, cookie.clone(), Stage::EncRequest, Duration::from_millis(1500)).await;
                 let observed = match (cookie.is_some(), c2.should_auth) { (false, _) => "noissue", (_, Some(false)) => "accept", (_, Some(true)) => "reject", (_, None) => "norequest" };
                 let want = if wait <= cfgexp { "accept" } else { "reject" };
-                let oracle = if observed == want { None } else { Some(format!("configured auth_cookie_expiry={cfgexp}s: the cookie the server issued (first login reached {st:?}) presented {wait}s later must be {want}ed, the server's answer was {observed}")) };
+                let mut oracle = if observed == want { None } else { Some(format!("configured auth_cookie_expiry={cfgexp}s: the cookie the server issued (first login reached {st:?}) presented {wait}s later must be {want}ed, the server's answer was {observed}")) };
+                // whoever holds the configured secret can verify the issued cookie: tag = HMAC-SHA256(secret as configured, body)
+                if let Some(ck) = &cookie { if ck.len() < 32 || sign(configured.as_bytes(), &ck[32..]) != *ck { oracle = Some(format!("{}the issued cookie's tag is not HMAC-SHA256 under the configured secret {configured:?}", oracle.map_or(String::new(), |o| o + "; "))); } }
                 Case { request: req.into(), observed: observed.into(), oracle, class: format!("issued:{}", if wait <= cfgexp { "fresh" } else { "expired" }) }
             }
             "c14.deadline" => {
@@ -588,7 +594,7 @@ pub fn run_c14(a: &Args) {
                 let age = match rng.below(5) { 0 => cfgexp.saturating_sub(10), 1 => cfgexp + 10, 2 => 21_600 - 10, 3 => 21_600 + 10, _ => rng.range(0, 2 * cfgexp) };
                 // keep clear of the boundary: the two clocks are real
                 let age = if age.abs_diff(cfgexp) < 5 { cfgexp + 10 } else { age };
-                format!("c14.cookie cfgexp={cfgexp} age={age} same={}", u8::from(!rng.chance(1, 4)))
+                format!("c14.cookie cfgexp={cfgexp} age={age} same={} sec={}", u8::from(!rng.chance(1, 4)), rng.below(4))
             }
             _ => {
                 let proxy = rng.chance(1, 2);
@@ -612,6 +618,8 @@ pub fn run_c14(a: &Args) {
     reqs.push("c14.cookie cfgexp=21600 age=0 same=1 nosecret=1".into());
     reqs.push("c14.issued cfgexp=2 wait=4".into());
     reqs.push("c14.issued cfgexp=600 wait=1".into());
+    reqs.push("c14.issued cfgexp=600 wait=0 sec=1".into());
+    reqs.push("c14.issued cfgexp=600 wait=0 sec=2".into());
     reqs.push("c14.deadline timeout=2000 proxy=0 header=none proto=0 style=idle-after-pong".into());
     reqs.push("c14.deadline timeout=2000 proxy=1 header=300 proto=0 style=idle-after-pong".into());
     if a.thorough {
@@ -669,6 +677,26 @@ fn classify(bytes: &[u8], cfg: ParseConfig) -> HClass {
     }
 }
 
+/// The limiter and PROXY settings as an operator writes them — environment variables, or a configuration file with the
+/// documented keys — read once by the application's own `Config::read()` (limit 2 per 20 s, v1 headers only).
+fn operator_cfgs() -> &'static (Result<passage::config::Config, String>, Result<passage::config::Config, String>) {
+    static CFGS: std::sync::OnceLock<(Result<passage::config::Config, String>, Result<passage::config::Config, String>)> = std::sync::OnceLock::new();
+    CFGS.get_or_init(|| {
+        let envs = [("PASSAGE_RATELIMITER_DURATION", "20"), ("PASSAGE_RATELIMITER_LIMIT", "2"), ("PASSAGE_PROXYPROTOCOL_ALLOWV1", "true"), ("PASSAGE_PROXYPROTOCOL_ALLOWV2", "false")];
+        // SAFETY: called first from `run_c15` before any worker thread exists
+        for (k, v) in envs { unsafe { std::env::set_var(k, v); } }
+        let from_env = passage::config::Config::read().map_err(|e| e.to_string());
+        for (k, _) in envs { unsafe { std::env::remove_var(k); } }
+        let base = std::env::temp_dir().join(format!("pv-c15cfg-{}", std::process::id()));
+        std::fs::write(base.with_extension("yaml"), "rate_limiter:\n  duration: 20\n  limit: 2\nproxy_protocol:\n  allow_v1: true\n  allow_v2: false\n").unwrap();
+        unsafe { std::env::set_var("CONFIG_FILE", &base); }
+        let from_file = passage::config::Config::read().map_err(|e| e.to_string());
+        unsafe { std::env::remove_var("CONFIG_FILE"); }
+        let _ = std::fs::remove_file(base.with_extension("yaml"));
+        (from_env, from_file)
+    })
+}
+
 fn c15_case(req: &str) -> Case {
     let proxy = kvn(req, "proxy") == 1;
     let allow = kvs(req, "allow").unwrap_or_else(|| "11".into());
@@ -682,12 +710,20 @@ fn c15_case(req: &str) -> Case {
         if let IpAddr::V4(v) = ip { if v.octets()[0] == 127 { return v.octets()[3] as usize; } }
         match ids.iter().position(|x| *x == ip) { Some(i) => 10 + i, None => { ids.push(ip); 9 + ids.len() } }
     };
-    let via_app = kvs(req, "via").as_deref() == Some("app");
+    let via = kvs(req, "via").unwrap_or_default();
+    let via_app = via == "app" || via == "env" || via == "file";
     if kvs(req, "burst").as_deref() == Some("1") { return c15_burst(req, proxy, (v1, v2ok), &allow, limit, &hdrs, pcfg); }
     rt().block_on(async {
         // either the Listener built by hand, or the application entry point with a configuration value
         let srv = if via_app { None } else { Some(Srv::start(&SrvOpts { proxy: if proxy { Some((v1, v2ok)) } else { None }, limiter: limit, timeout: Duration::from_secs(2), secret: Some(b"s3cret".to_vec()), ..Default::default() })) };
-        let port = match &srv { Some(s) => s.port, None => start_app(app_config_full(free_port(), 10_000, 21_600, None, 2, if proxy { Some((v1, v2ok)) } else { None }, limit)) };
+        let port = match &srv { Some(s) => s.port, None if via == "app" => start_app(app_config_full(free_port(), 10_000, 21_600, None, 2, if proxy { Some((v1, v2ok)) } else { None }, limit)),
+            None => {
+                // what the operator wrote (limit 2 per 20 s, v1 only — the request line says the same) as the application read it
+                match if via == "env" { &operator_cfgs().0 } else { &operator_cfgs().1 } {
+                    Ok(cfg) => { let mut cfg = cfg.clone(); cfg.address = format!("127.0.0.1:{}", free_port()); cfg.timeout = 2; start_app(cfg) }
+                    Err(e) => return Case { request: req.into(), observed: "unreadable".into(), oracle: Some(format!("the operator's limiter and PROXY settings ({via}) were not readable: {e}")), class: format!("{via} unreadable") },
+                }
+            } };
         let no_seen: Seen = Arc::new(Mutex::new(vec![]));
         let seen_log = srv.as_ref().map_or(no_seen, |s| s.seen.clone());
         let mut reference = limit.map(|n| RateLimiter::<IpAddr>::new(Duration::from_secs(3600), n));
@@ -760,12 +796,12 @@ fn c15_case(req: &str) -> Case {
         let ip6o: Vec<String> = texts.iter().map(|t| format!("{}:{}", hex(t.as_bytes()), t.parse::<std::net::Ipv6Addr>().map_or("-".to_string(), |a| hex(&a.octets())))).collect();
         let mut idtab: Vec<String> = vec![];
         for t in texts { if let Ok(ip) = t.parse::<IpAddr>() { let oct = match ip { IpAddr::V4(a) => a.octets().to_vec(), IpAddr::V6(a) => a.octets().to_vec() }; idtab.push(format!("{}:{}", hex(&oct), id_of(ip))); } }
-        let request = format!("c15.run proxy={} allow={allow} limit={} via={} hdrs={} login={} conns={} firsts={} ip4o={} ip6o={} ids={}", u8::from(proxy), limit.map_or("off".to_string(), |n| n.to_string()), if via_app { "app" } else { "listener" },
+        let request = format!("c15.run proxy={} allow={allow} limit={} via={} hdrs={} login={} conns={} firsts={} ip4o={} ip6o={} ids={}", u8::from(proxy), limit.map_or("off".to_string(), |n| n.to_string()), if via_app { via.as_str() } else { "listener" },
             kvs(req, "hdrs").unwrap(), kvs(req, "login").unwrap_or_else(|| "0".into()), conns.join(";"), firsts.join(";"), ip4o.join(","), ip6o.join(","), idtab.join(","));
         let refused = observed.iter().filter(|o| *o == "R").count();
         let closed = observed.iter().filter(|o| *o == "C").count();
         Case { request, observed: observed.join(","), oracle: if why.is_empty() { None } else { Some(why.join("; ")) },
-            class: format!("{} proxy={} limiter={} refused={} unserved={}", if via_app { "app" } else { "listener" }, u8::from(proxy), if limit.is_some() { "on" } else { "off" }, if refused > 0 { "some" } else { "none" }, if closed > 0 { "some" } else { "none" }) }
+            class: format!("{} proxy={} limiter={} refused={} unserved={}", if via_app { via.as_str() } else { "listener" }, u8::from(proxy), if limit.is_some() { "on" } else { "off" }, if refused > 0 { "some" } else { "none" }, if closed > 0 { "some" } else { "none" }) }
     })
 }
 
@@ -836,6 +872,10 @@ pub fn run_c15(a: &Args) {
     // the boundary configuration "nobody is admitted", through the application entry point and through the Listener
     reqs.push("c15.run proxy=0 allow=11 limit=0 via=app hdrs=1/7;2/7;1/7 login=0".into());
     reqs.push("c15.run proxy=1 allow=11 limit=0 via=listener hdrs=1/0;2/4;1/1 login=0".into());
+    // the operator's own spelling of the limiter and PROXY settings, through the environment and through a file
+    let _ = operator_cfgs();
+    reqs.push("c15.run proxy=1 allow=10 limit=2 via=env hdrs=1/0;2/0;1/0;1/4;2/1;1/1;1/1;1/7 login=0".into());
+    reqs.push("c15.run proxy=1 allow=10 limit=2 via=file hdrs=1/1;2/1;1/4;1/1;2/0;1/0;1/0;1/3;1/3;2/3 login=0".into());
     // bursts: many simultaneous connections of one address, server on several workers
     for k in 0..(if a.thorough { 12 } else { 4 }) {
         let proxy = k % 2 == 1;
